@@ -13,7 +13,7 @@ NS_URIS = [
     "http://other.org/ns#", "http://ex.org", "https://w3id.org/é/",
 ]
 NS_URIS_ASCII = [u for u in NS_URIS if u.isascii()]
-PREFIXES = ["ex", "ex2", "other", "ex_1", "dn", "p", "Q-1", "ex_2", "zz", "dn_1", "xsd", "prov"]
+PREFIXES = ["ex", "ex2", "other", "ex_1", "dn", "p", "Q-1", "ex_2", "zz", "dn_1", "xsd", "prov", "xsi"]
 LOCALS = ["e1", "e2", "a1", "a2", "ag1", "b/1", "x.y", "x-y", "été", "_u", "1st", "r1", "r2", "c1", "pl1", "e11", "a%20b", "007",
           "L" + "o" * 240 + "ng"]
 ATTR_LOCALS = ["tag", "tag2", "v", "n_1", "été", "time", "endTime", "type", "label"]   # incl. local names PROV uses itself
